@@ -80,7 +80,9 @@ func runC02(p *core.Prog, r *core.Report, tier string) {
 		ms := []core.Matcher{call("compress/gzip.Writer.Close"), call("bufio.Writer.Flush"), call("os.File.Sync"), call("pkg/file.RenameFile"), call("pkg/file.SyncDir")}
 		core.RuleOrder(r, f, "durable-replace", names, ms)
 		g := f.Graph()
-		exempt := core.CondEdge(func(c ast.Expr) bool { return core.ExprStr(c) == "t.pendingFile == nil" }, true)
+		// nothing pending: the branch on which t.pendingFile is known to be nil
+		pending := core.LookupField(f.Pkg.Types, "Tombstoner", "pendingFile")
+		exempt := g.NilEdge(func(x ast.Expr) bool { return pending != nil && core.FieldOf(f.Info(), x) == pending }, true)
 		core.RuleMustPassN(r, f, g, "durable-replace", "SyncDir", g.Calling(call("pkg/file.SyncDir")), exempt)
 		core.RuleErrorsUsed(r, f, "durable-errors", "sync/flush/rename", durableCalls, false, 5)
 	}
@@ -98,9 +100,8 @@ func runC02(p *core.Prog, r *core.Report, tier string) {
 				r.Check(!reach[s], "durable-replace", f.String(), "SyncDir<files-store", g.Line(s), "the new file set is published only after the directory holding the renames was fsynced")
 			}
 		}
-		exempt := core.CondEdge(func(c ast.Expr) bool {
-			return strings.Contains(core.ExprStr(c), "len(newFiles) == 0")
-		}, true)
+		// nothing to do: the branch on which a file-list parameter is known to be empty
+		exempt := g.EmptyEdge(func(x ast.Expr) bool { return isParamOf(f, core.ObjOf(f.Info(), x)) })
 		core.RuleMustPassN(r, f, g, "durable-replace", "SyncDir", g.Calling(call("pkg/file.SyncDir")), exempt)
 		core.RuleErrorsUsed(r, f, "durable-errors", "rename/syncdir", durableCalls, false, 4)
 	}
@@ -117,7 +118,7 @@ func runC02(p *core.Prog, r *core.Report, tier string) {
 		syncCall := call("*.Sync")
 		g := f.Graph()
 		// the only success path that may skip Sync is the failed type assertion (in-memory writer)
-		exempt := core.CondEdge(func(c ast.Expr) bool { return core.ExprStr(c) == "ok" }, false)
+		exempt := assertFailedEdge(f)
 		core.RuleMustPassN(r, f, g, "durable-replace", "Sync", g.Calling(syncCall), exempt)
 		core.RuleErrorsUsed(r, f, "durable-errors", "Sync", syncCall, false, 1)
 	}
@@ -173,11 +174,32 @@ func runC02(p *core.Prog, r *core.Report, tier string) {
 		idField := core.LookupField(f.Pkg.Types, "WAL", "currentSegmentID")
 		r.Check(idField != nil, "anchor", "tsm1.WAL.currentSegmentID", "unresolved", f.Pos(), "field resolved")
 		assign := g.Assigning(idField)
-		// paths on which segment files exist: the true branch of `len(segments) > 0`
+		// paths on which segment files exist: an edge on which the list returned by
+		// segmentFileNames is known to be non-empty
+		nonEmpty := core.AtomEdge(func(x ast.Expr, val bool) bool {
+			sl, emptyOn, ok := core.EmptyOn(f.Info(), x)
+			if !ok || val == emptyOn {
+				return false
+			}
+			o := core.ObjOf(f.Info(), sl)
+			if o == nil {
+				return false
+			}
+			from := false
+			ast.Inspect(f.Decl.Body, func(n ast.Node) bool {
+				if as, ok := n.(*ast.AssignStmt); ok && len(as.Rhs) == 1 && len(as.Lhs) >= 1 && core.ObjOf(f.Info(), as.Lhs[0]) == o {
+					if c, ok := as.Rhs[0].(*ast.CallExpr); ok && call("tsdb/engine/tsm1.segmentFileNames")(f.Info(), c) {
+						from = true
+					}
+				}
+				return true
+			})
+			return from
+		})
 		var starts []*core.Node
 		for _, n := range g.Nodes {
 			for _, e := range n.Succ {
-				if e.Cond != nil && e.Branch && strings.HasPrefix(core.ExprStr(e.Cond), "len(") && strings.HasSuffix(core.ExprStr(e.Cond), "> 0") {
+				if nonEmpty(e) {
 					starts = append(starts, e.To)
 				}
 			}
@@ -344,7 +366,7 @@ func walAck(p *core.Prog, r *core.Report) {
 		g := f.Graph()
 		core.RuleOrder(r, f, rule, []string{"bufio.Flush", "os.File.Sync"}, []core.Matcher{call("bufio.Writer.Flush"), call("os.File.Sync")})
 		core.RuleMustPass(r, f, rule, "bufio.Flush", call("bufio.Writer.Flush"), false)
-		exempt := core.CondEdge(func(c ast.Expr) bool { return core.ExprStr(c) == "ok" }, false)
+		exempt := assertFailedEdge(f)
 		core.RuleMustPassN(r, f, g, rule, "os.File.Sync", g.Calling(call("os.File.Sync")), exempt)
 		core.RuleErrorsUsed(r, f, "durable-errors", "Flush/Sync", durableCalls, false, 2)
 	}
@@ -539,7 +561,8 @@ func walTruncate(p *core.Prog, r *core.Report) {
 		g := nx.Graph()
 		stores := g.Select(g.Assigning(nField))
 		r.Check(len(stores) >= 1, rule, nx.String(), "n-store:absent", nx.Pos(), "valid-byte counter is advanced")
-		reach := g.ReachFromEntry(nil, core.CondEdge(func(c ast.Expr) bool { return core.ExprStr(c) == "r.err == nil" }, true))
+		errField := core.LookupField(nx.Pkg.Types, "WALSegmentReader", "err")
+		reach := g.ReachFromEntry(nil, g.NilEdge(func(x ast.Expr) bool { return errField != nil && core.FieldOf(nx.Info(), x) == errField }, true))
 		for _, s := range stores {
 			r.Check(!reach[s], rule, nx.String(), "n-advance-guard", g.Line(s), "valid-byte counter advances only after the entry decoded without error")
 		}
